@@ -205,6 +205,9 @@ func (ex *Explorer) Run() {
 				ex.Queries += vm.solver.Queries
 				ex.SolverTime += vm.solver.Time
 				for _, e := range vm.solver.Errors {
+					if strings.Contains(e, "canceled") {
+						continue // a timeout artefact: the process was restarted and the query re-decided one-shot
+					}
 					if len(ex.Errors) < 20 {
 						ex.Errors = append(ex.Errors, "solver: "+e)
 					}
